@@ -52,6 +52,7 @@ structure St where
   tab : List (List (Float × Float)) := []          -- roots_legendre(k), k = 1 … (index k-1)
   gq : GQ Float := { minO := 1, maxO := 1, rtol := 1e-5, roots := [], weights := [] }
   objI : Bool := false                             -- line shapes integrate with the GaussianQuadrature object `gq`
+  exact : Bool := false                            -- reference mode: exact (closed-form) bin integral, no clipping
   cdf : Bool := false                              -- post-fix variant of add_lorentzian_line (notes/fixes/C02-1.diff)
   gtab : List (Float × Float × Float) := []        -- (wavelength, x, cumulative) supplied by the harness
 
@@ -68,6 +69,7 @@ def gqState (g : GQ Float) : String := s!"{g.minO} {g.maxO} {fF g.rtol}"
 def starkI (st : St) : Float → Float → Float → Float → Float :=
   fun wl fwhm a b =>
     if st.objI then gqEval (starkFunction fns st.normC wl fwhm) st.gq a b
+    else if st.exact then (1.0 / st.normC) * (lookupG st wl b - lookupG st wl a)
     else if st.cdf then
       -- the patched bin integral: closed-form cumulative, clipped at the cut-offs
       (1.0 / st.normC) * (lookupG st wl (minv b (wl + st.cutL * fwhm)) - lookupG st wl (maxv a (wl - st.cutL * fwhm)))
@@ -143,7 +145,17 @@ def step (st : St) (ts : List String) : St × String :=
   | ["gqe", "stark", a, b, x0, fw] => (st, fF (gqEval (starkFunction fns st.normC (pF x0) (pF fw)) st.gq (pF a) (pF b)))
   | ["gqe", "exp", a, b, k] => (st, fF (gqEval (fun x => Float.exp (pF k * x)) st.gq (pF a) (pF b)))
   | ["gqe", "runge", a, b, k] => (st, fF (gqEval (fun x => 1.0 / (1.0 + pF k * x * x)) st.gq (pF a) (pF b)))
-  | ["mode", m] => ({ st with cdf := m == "cdf" }, "ok")
+  | ["mode", m] => ({ st with cdf := m == "cdf", exact := m == "exact" }, "ok")
+  | "llx" :: r :: wl :: fw :: rest =>
+      -- reference: the same add_lorentzian_line model with the *exact* bin integral (cumulative values from the harness)
+      let sp := parseSpec rest
+      let (tab, _) := takeTable (rest.drop (4 + sp.bins))
+      let G : Float → Float := fun x =>
+        match tab.find? (fun p => p.1.toBits == x.toBits) with
+        | some p => p.2
+        | none => 0.0 / 0.0
+      let I : Float → Float → Float → Float → Float := fun _ _ a b => (1.0 / st.normC) * (G b - G a)
+      (st, fFs (addLorentzianLine fns I st.cutL (pF r) (pF wl) (pF fw) sp).samples)
   | "gtab" :: n :: rest => ({ st with gtab := parseTriples (pN n) (rest.map pF) }, "ok")
   | "mc" :: pol :: r :: rest =>
       -- the Lorentzian components StarkBroadenedLine hands to add_lorentzian_line: "rad wl width" each
